@@ -149,7 +149,9 @@ func (d *Decorator) DecorateNode(n ast.Node) (dst.Node, error) {
 			d.Filenames[d.Dst.Nodes[v].(*dst.File)] = k
 		}
 	case *ast.File:
-		d.Filenames[out.(*dst.File)] = d.Fset.File(n.Pos()).Name()
+		if tokenf := d.Fset.File(n.Pos()); tokenf != nil {
+			d.Filenames[out.(*dst.File)] = tokenf.Name()
+		}
 	}
 
 	return out, nil
